@@ -57,7 +57,10 @@ def main():
         })
     man = {
         "version": 1,
-        "setup_cmd": "cd lean && lake build",
+        # build exactly what the registered checks need (their theorem modules and driver handlers)
+        "setup_cmd": "cd lean && lake build " + " ".join(sorted(
+            {t["module"] for c in checks for t in json.loads((VERIF / "lean" / "theorems" / (c["property_id"] + ".json")).read_text())}
+            | {"Molgri.Drv." + c["property_id"] for c in checks})),
         "hooks": {
             "guard": "MOLGRI_VERIF",
             "enable": "no hooks are needed: every observation point is a public function or getter of the package; the guard is recorded but unused",
